@@ -1544,7 +1544,9 @@ pub fn traf_storm_image(seed: u64) -> (Vec<u8>, Option<usize>) {
     out[moov.start..moov.start + 4].copy_from_slice(&newsize.to_be_bytes());
     let init_len = out.len();
     let mut trafs = Vec::with_capacity(t as usize * 26);
-    let every = 50 + r.below(200) as u32;
+    // in a third of the images every traf carries a one-sample run
+    let every = if r.chance(1, 3) { 1 } else { 50 + r.below(200) as u32 };
+    let t = if every == 1 { t / 2 } else { t };
     for i in 0..t {
         let tfhd = full(b"tfhd", 0, 0x020000, &u32b(1));
         if i % every == every - 1 {
